@@ -25,6 +25,7 @@ RULE = (
     "fold accepts nothing) must raise. Non-trivial = >= 2 folds with >= 5 accepted targets each; distinct = case parameters."
     " cli: mokapot.mokapot.main with --test_fdr != --train_fdr, its built-in model replaced by the recording model (vf.instruments.pipeline.cli_recording), judged at the command line's test FDR."
     " A third of the tables have coarse features (exactly tied model outputs, also across labels and at the cut-off); a sixth are not shuffled."
+    " A quarter of the cases predict in chunks leaving 1..3 trailing rows; a row scored and calibrated by a model whose training rows include it is a violation."
 )
 ASSUMPTIONS = [
     "accepted targets per fold are computed with mokapot.qvalues.tdc on the recorded raw outputs (its correctness is C01's business)",
@@ -74,6 +75,18 @@ def judge(res, tdc, tabs, out, test_fdr, extra):
     """Judge one finished brew run (API or CLI) from the estimator log. Returns (minq, good_folds) or None when the run
     ended in a state that was fully judged already (crash, refusal, fall-back)."""
     groups = per_fold(tabs, out.get("log", []))
+    # "fold" means the rows a model did not train on: a row that is scored (and calibrated) by a model whose training
+    # rows include it was calibrated with a fold it does not belong to
+    training, _final = cv.split_log(out.get("log", []))
+    trained_on = {}
+    for e in training:
+        trained_on.setdefault(e["uid"], set()).update(int(r) for r in e["rids"])
+    for (fi, uid), (pos, raw, t) in groups.items():
+        rids = tabs[fi]["df"]["rid"].values[pos]
+        leak = [int(r) for r in rids.tolist() if int(r) in trained_on.get(uid, ())]
+        if leak and out["status"] == "ok":
+            res.violate("row_calibrated_with_a_fold_it_does_not_belong_to", "", file=fi, model=uid, rows=len(leak), example_rids=leak[:4], **extra)
+            return None
     # expected behaviour from the recorded raw outputs
     minq = {}
     expected = {}
@@ -219,6 +232,11 @@ def run_case(case):
         # line up with its rows
         nmin = min(len(t["df"]) for t in tabs)
         sizes = {"CHUNK_SIZE_ROWS_PREDICTION": max(5, nmin // int(rng.integers(3, 7)))} if case["workers"] > 1 or case["index"] % 5 == 0 else {}
+        if case["index"] % 4 == 1:
+            # a prediction chunk size that leaves 1..3 rows in the last chunk of the smallest collection (a chunk that
+            # cannot contain every fold)
+            k = int(rng.integers(2, 5))
+            sizes = {"CHUNK_SIZE_ROWS_PREDICTION": max(2, (nmin - 1) // k)}
         kw["perturb"] = int(rng.integers(1 << 30))
         with core.chunk_sizes(**sizes):
             out = pipeline.run_brew(paths, test_fdr=case["test_fdr"], **kw)
